@@ -189,62 +189,138 @@ def showPVal : PVal → Str
 def Elem.str (e : Elem) : Str :=
   e.value ++ (e.params.map fun kv => [';'] ++ kv.1 ++ ['='] ++ showPVal kv.2).flatten
 
-/-! ### q-values -/
+/-! ### q-values: what `float()` accepts -/
 
-/-- a decimal: (-1)^neg * num / 10^scale -/
+/-- the value `float(s)` yields, as far as the consumers look at it (`== 0`, `!= 0`, `> 0`, `<`, `==`):
+    `ok neg num scale` is the exact decimal (-1)^neg * num / 10^scale (the double it rounds to is a
+    strictly monotone image of it: at most 15 significant digits inside the normal range, see `mkQ`);
+    `inf`, `nan` are the IEEE classes; `bad` = ValueError; `exotic` = a finite decimal whose rounding
+    to a double is not modelled (more than 15 significant digits, or a magnitude next to the overflow /
+    underflow thresholds): the model says nothing about it. -/
 inductive Q where
   | ok (neg : Bool) (num : Nat) (scale : Nat)
+  | inf (neg : Bool)
+  | nan
   | bad
   | exotic
   deriving DecidableEq, Repr
 
 def isDigit (c : Char) : Bool := '0'.toNat ≤ c.toNat && c.toNat ≤ '9'.toNat
 
-def digitsVal (ds : Str) : Nat := ds.foldl (fun n c => 10 * n + (c.toNat - '0'.toNat)) 0
-
-def exoticChar (c : Char) : Bool :=
-  isDigit c || c = '.' || c = 'e' || c = 'E' || c = '+' || c = '-' || c = '_'
+/-- value of a digit string (`% 10` is the identity on digits; it bounds the value for any text) -/
+def digitsVal (ds : Str) : Nat := ds.foldl (fun n c => 10 * n + (c.toNat - '0'.toNat) % 10) 0
 
 def sNan : Str := ['n', 'a', 'n']
 def sInf : Str := ['i', 'n', 'f']
 def sInfinity : Str := ['i', 'n', 'f', 'i', 'n', 'i', 't', 'y']
 
-/-- integer digits `ip`, fraction digits `fp`: at most 15 digits stay exact in the model -/
-def mkQ (neg : Bool) (ip fp : Str) : Q :=
-  if ip.length + fp.length > 15 then Q.exotic else Q.ok neg (digitsVal (ip ++ fp)) fp.length
+/-- ASCII lower case (what the `inf` / `nan` spelling test of `float()` folds) -/
+def lowerAscii (s : Str) : Str :=
+  s.map fun c => if 65 ≤ c.toNat && c.toNat ≤ 90 then Char.ofNat (c.toNat + 32) else c
 
-/-- `float(s)` restricted to plain decimals -/
-def parseQ (s : Str) : Q :=
-  let t := strip s
-  let (neg, u) := match t with
-    | '-' :: r => (true, r)
-    | '+' :: r => (false, r)
-    | r => (false, r)
-  let ip := u.takeWhile isDigit
-  let r1 := u.dropWhile isDigit
-  let (fp, r2) := match r1 with
-    | '.' :: r => (r.takeWhile isDigit, r.dropWhile isDigit)
-    | r => ([], r)
-  if r2 = [] ∧ (ip ≠ [] ∨ fp ≠ []) then mkQ neg ip fp
+/-- PEP 515: an underscore is accepted only between two digits; the result is the text without them
+    (`prevDigit` = the previous character was a digit) -/
+def dropUnderscores : (prevDigit : Bool) → Str → Option Str
+  | _, [] => some []
+  | p, c :: r =>
+    if c = '_' then
+      match r with
+      | d :: _ => if p && isDigit d then dropUnderscores false r else none
+      | [] => none
+    else (dropUnderscores (isDigit c) r).map (c :: ·)
+
+/-- the scale bound of finite values: `Q.key` is exact below it -/
+def keyScale : Nat := 330
+
+/-- the decimal `(-1)^neg * (ip.fp) * 10^exp` as `float()` sees it.  With `D` the digits without
+    leading and trailing zeros, `sig = |D|` and `adj` the exponent of the leading digit:
+    `adj ≥ 309` is above DBL_MAX → `inf`; `adj ≤ -325` is below half the smallest subnormal → `±0.0`;
+    `sig ≤ 15` and `-307 ≤ adj ≤ 307` is the range where decimal → double is strictly monotone
+    (DBL_DIG = 15, normal numbers); everything else is `exotic`. -/
+def mkQ (neg : Bool) (ip fp : Str) (exp : Int) : Q :=
+  let d1 := (ip ++ fp).dropWhile (· = '0')
+  if d1 = [] then Q.ok neg 0 0
   else
-    let lu := lower u
-    if t ≠ [] ∧ (t.all exoticChar ∨ lu = sNan ∨ lu = sInf ∨ lu = sInfinity) then Q.exotic else Q.bad
+    let tz := (d1.reverse.takeWhile (· = '0')).length
+    let d2 := d1.take (d1.length - tz)
+    let e2 : Int := exp - (fp.length : Int) + (tz : Int)
+    let adj : Int := e2 + (d2.length : Int) - 1
+    if adj ≥ 309 then Q.inf neg
+    else if adj ≤ -325 then Q.ok neg 0 0
+    else if d2.length > 15 ∨ adj > 307 ∨ adj < -307 then Q.exotic
+    else if e2 ≥ 0 then Q.ok neg (digitsVal d2 * 10 ^ e2.toNat) 0
+    else Q.ok neg (digitsVal d2) (-e2).toNat
 
-/-- comparison key: the decimal scaled to 15 fraction digits (exact: `parseQ` yields scale ≤ 15,
-    see `CpProofs.C17.parseQ_scale_le`) -/
+/-- the exponent part: `[eE][+-]?digits` up to the end of the text -/
+def parseExp : Str → Option Int
+  | [] => some 0
+  | c :: r =>
+    if c = 'e' ∨ c = 'E' then
+      let (eneg, ds) := match r with
+        | '-' :: r' => (true, r')
+        | '+' :: r' => (false, r')
+        | r' => (false, r')
+      if ds ≠ [] ∧ ds.all isDigit then
+        some (if eneg then -(digitsVal ds : Int) else (digitsVal ds : Int))
+      else none
+    else none
+
+/-- `float(s)`: blanks stripped, underscores between digits dropped, optional sign, then
+    `inf` / `infinity` / `nan` in any case, or `digits [. digits] | . digits` with an optional exponent -/
+def parseQ (s : Str) : Q :=
+  match dropUnderscores false (strip s) with
+  | none => Q.bad
+  | some t =>
+    let (neg, u) := match t with
+      | '-' :: r => (true, r)
+      | '+' :: r => (false, r)
+      | r => (false, r)
+    let lu := lowerAscii u
+    if lu = sInf ∨ lu = sInfinity then Q.inf neg
+    else if lu = sNan then Q.nan
+    else
+      let ip := u.takeWhile isDigit
+      let r1 := u.dropWhile isDigit
+      let (fp, r2) := match r1 with
+        | '.' :: r => (r.takeWhile isDigit, r.dropWhile isDigit)
+        | r => ([], r)
+      if ip ≠ [] ∨ fp ≠ [] then
+        match parseExp r2 with
+        | some e => mkQ neg ip fp e
+        | none => Q.bad
+      else Q.bad
+
+/-- the key of `+inf`: above every finite key (`CpProofs.C17.key_lt_infKey`) -/
+def infKey : Int := Int.ofNat (10 ^ (keyScale + 320))
+
+/-- comparison key: the decimal scaled to `keyScale` fraction digits (exact: `parseQ` yields
+    scale ≤ keyScale, see `CpProofs.C17.parseQ_scale_le`); `nan` has no place in the order (a list with a
+    `nan` is never sorted by the model) -/
 def Q.key : Q → Int
-  | .ok neg n sc => if neg then -(Int.ofNat (n * 10 ^ (15 - sc))) else Int.ofNat (n * 10 ^ (15 - sc))
+  | .ok neg n sc =>
+    if neg then -(Int.ofNat (n * 10 ^ (keyScale - sc))) else Int.ofNat (n * 10 ^ (keyScale - sc))
+  | .inf neg => if neg then -infKey else infKey
   | _ => 0
 
+/-- `qvalue == 0` -/
 def Q.isZero : Q → Bool
   | .ok _ n _ => n == 0
   | _ => false
 
+/-- `qvalue > 0` (false for `nan`) -/
 def Q.isPos : Q → Bool
   | .ok neg n _ => !neg && n != 0
+  | .inf neg => !neg
   | _ => false
 
-/-- `a < b` / `a == b` on parsed decimals (callers test bad/exotic first) -/
+/-- does the value take part in an order (`sorted` over a list with a `nan`, a malformed or an
+    unmodelled value is outside the model) -/
+def Q.ordered : Q → Bool
+  | .ok _ _ _ => true
+  | .inf _ => true
+  | _ => false
+
+/-- `a < b` / `a == b` on ordered values (callers test bad / exotic / nan first) -/
 def Q.lt (a b : Q) : Bool := decide (a.key < b.key)
 
 def Q.eq (a b : Q) : Bool := decide (a.key = b.key)
@@ -292,7 +368,7 @@ def acceptElements (v : Option Str) : Parsed :=
     let els := (splitHeader v).map acceptFromStr
     if els.length ≥ 2 then
       if els.any (fun e => e.q = Q.bad) then .err400
-      else if els.any (fun e => e.q = Q.exotic) then .exotic
+      else if els.any (fun e => e.q.ordered = false) then .exotic
       else .ok (sortAsc acceptLt els).reverse
     else .ok els
 
@@ -535,5 +611,32 @@ def encodeString (k : Codec) (name : Str) (chunks : List Str) : Option (List Gzi
 
 /-- the abstract `can` of a body under a codec -/
 def canOf (k : Codec) (chunks : List Str) (name : Str) : Bool := (encodeString k name chunks).isSome
+
+/-! ### both tools on one response
+
+  `tools.encode` is a `before_handler` hook (priority 70) that wraps the page handler, so the body is
+  charset-encoded when the handler call returns; `tools.gzip` runs at `before_finalize` (priority 80),
+  i.e. on the encoded chunks and on the Content-Type the encoder wrote back (generated table:
+  `Gen.C17.encodePoint/gzipPoint/hookpoints`). -/
+
+structure BothOut where
+  charset : Str
+  decision : Decision
+  headers : RespHeaders
+  contentType : Str
+  body : List Gzip.Bytes
+
+/-- a buffered text body through `ResponseEncoder.__call__`, then `encoding.gzip`; `none` when the
+    encoder did not produce a body (no negotiation, 406, 500 …) -/
+def encodeThenGzip (k : Codec) (z : Gzip.Z) (ei : EncodeIn) (ae : Option Str) (cached : Bool)
+    (mimes : List Str) (level mtime : Nat) (h : RespHeaders) (chunks : List Str) : Option BothOut :=
+  match encodeCall (canOf k chunks) ei with
+  | .found c nct =>
+    match encodeString k c chunks with
+    | some bs =>
+      let r := gzipTool z ⟨bs.isEmpty, cached, ae, nct, mimes⟩ level mtime h bs
+      some ⟨c, r.1, r.2.1, nct, r.2.2⟩
+    | none => none
+  | _ => none
 
 end CpModel.Negotiate
